@@ -80,6 +80,11 @@ def run_warnings_as_errors(ctx):
     res.rule("REJECT-WHOLE/warnings-as-errors", k)
 
 
+def run_optimized(ctx):
+    """the same obligations with the interpreter in -O mode (validation written as assert statements does nothing there)"""
+    run(ctx)
+
+
 def run(ctx):
     res = ctx.res
     res.level = LEVEL
